@@ -3,6 +3,8 @@ package checks
 import (
 	"errors"
 	"fmt"
+	"sync"
+	"time"
 
 	"github.com/Fantom-foundation/lachesis-base/kvdb"
 	"github.com/Fantom-foundation/lachesis-base/kvdb/cachedproducer"
@@ -34,11 +36,18 @@ func (s *c27store) Close() error {
 func (s *c27store) Drop() { s.drops++; s.p.dropCalls++ }
 
 type c27producer struct {
+	failNext                     bool // fault injection: the next underlying OpenDB returns an error
+	failedOpens                  int
 	opens, closeCalls, dropCalls int
 	stores                       []*c27store
 }
 
 func (p *c27producer) OpenDB(name string) (kvdb.Store, error) {
+	if p.failNext {
+		p.failNext = false
+		p.failedOpens++
+		return nil, errors.New("injected: underlying OpenDB fails")
+	}
 	p.opens++
 	s := &c27store{Store: memorydb.New(), name: name, gen: p.opens, p: p}
 	p.stores = append(p.stores, s)
@@ -51,10 +60,12 @@ func (p *c27producer) Initialize(n []string, f []byte) ([]byte, error) { return 
 func (p *c27producer) Close() error                                    { return nil }
 
 func runC27(c *ev.Ctx) {
-	c.Rule = "random sequences of 40 open/close/drop operations over 3 names on cachedproducer.Wrap and cachedproducer.WrapAll over a counting producer; model = per-name reference count and a 'drop allowed since the last open' flag. " +
+	c.Rule = "random sequences of 40 open/close/drop operations over 3 names on cachedproducer.Wrap and cachedproducer.WrapAll over a counting producer whose OpenDB is made to fail for one in five first opens (the error must come through and leave the count untouched); model = per-name reference count and a 'drop allowed since the last open' flag. " +
 		"Oracle after every operation: a re-open while open returns the identical store and does not reach the underlying producer; the underlying Close runs exactly when the count returns to zero and never otherwise; a Close with count zero returns an error; the underlying Drop runs at most once between two opens. " +
+		"Plus overlapping drops: the underlying Drop of the harness store blocks on a gate; while the first Drop is inside it, 1-3 further Drop calls are started (same or another handle); after the gate opens the underlying Drop must have run exactly once. " +
 		"non-trivial = distinct sequences in which a name was opened >=3 times concurrently, fully closed, closed once more (error expected), re-opened, and dropped twice"
 	c.Assumptions = []string{"handles are used while their generation is open; the extra Close is issued through the last handle of the name"}
+	c.Parallel(c.Pick(48, 480), 0, func(i int) { c27OverlappingDrops(c, i) })
 	n := c.Pick(20000, 500000)
 	c.Parallel(n, 0, func(i int) {
 		r := c.Rand("seq", i)
@@ -74,6 +85,7 @@ func runC27(c *ev.Ctx) {
 		dropOK := map[string]bool{}
 		last := map[string]kvdb.Store{}
 		maxRef, extraClose, reopened, doubleDrop := 0, false, false, false
+		failedOpens := 0
 		everClosed := map[string]bool{}
 		var log []string
 		fail := func(class, why string) {
@@ -84,6 +96,23 @@ func runC27(c *ev.Ctx) {
 			o0, c0, d0 := under.opens, under.closeCalls, under.dropCalls
 			switch k := r.Intn(10); {
 			case k < 4:
+				if ref[nm] == 0 && r.Intn(5) == 0 {
+					// the underlying producer refuses this open: the error comes through and nothing is counted
+					log = append(log, "open "+nm+" (underlying OpenDB fails)")
+					under.failNext = true
+					var ferr error
+					if p, _ := ev.Try(func() { _, ferr = open(nm) }); p != nil {
+						fail("open-panics", fmt.Sprint(p))
+						return
+					}
+					if ferr == nil || under.failNext {
+						fail("failed-underlying-open-not-reported", nm)
+						return
+					}
+					failedOpens++
+					c.Count("operations_checked", 1)
+					continue
+				}
 				log = append(log, "open "+nm)
 				var s kvdb.Store
 				var err error
@@ -189,6 +218,7 @@ func runC27(c *ev.Ctx) {
 			}
 		}
 		c.Eval(1)
+		c.Count("underlying_opens_failed_by_injection", int64(failedOpens))
 		if maxRef >= 3 && extraClose && reopened && doubleDrop {
 			c.Nontrivial(ev.Hash(which, log))
 		}
@@ -196,4 +226,100 @@ func runC27(c *ev.Ctx) {
 			c.Sample(map[string]interface{}{"case": i, "wrapper": which, "ops": log})
 		}
 	})
+}
+
+// ---- overlapping Drop calls: the second Drop starts while the first is still inside the underlying Drop
+
+type c27gateStore struct {
+	kvdb.Store
+	mu      *sync.Mutex
+	drops   *int
+	entered chan struct{}
+	gate    chan struct{}
+}
+
+func (s *c27gateStore) Close() error { return nil }
+func (s *c27gateStore) Drop() {
+	s.mu.Lock()
+	*s.drops++
+	s.mu.Unlock()
+	s.entered <- struct{}{}
+	<-s.gate
+}
+
+type c27gateProducer struct {
+	c27producer
+	mk func() kvdb.Store
+}
+
+func (p *c27gateProducer) OpenDB(name string) (kvdb.Store, error) { return p.mk(), nil }
+
+func c27OverlappingDrops(c *ev.Ctx, i int) {
+	var mu sync.Mutex
+	drops := 0
+	entered, gate := make(chan struct{}, 8), make(chan struct{})
+	under := &c27gateProducer{mk: func() kvdb.Store {
+		return &c27gateStore{Store: memorydb.New(), mu: &mu, drops: &drops, entered: entered, gate: gate}
+	}}
+	var open func(string) (kvdb.Store, error)
+	which := "Wrap"
+	if i%2 == 0 {
+		open = cachedproducer.Wrap(under).OpenDB
+	} else {
+		which = "WrapAll"
+		open = cachedproducer.WrapAll(under).OpenDB
+	}
+	s1, err := open("a")
+	if err != nil {
+		c.Violation("open-fails", map[string]interface{}{"case": i, "why": err.Error()})
+		return
+	}
+	s2 := s1
+	if i%4 >= 2 {
+		s2, _ = open("a") // the second Drop comes through another handle of the same open store
+	}
+	nDrops := 2 + i%3
+	done := make(chan struct{}, nDrops)
+	go func() { s1.Drop(); done <- struct{}{} }()
+	select {
+	case <-entered:
+	case <-time.After(20 * time.Second):
+		c.Inconclusive(1)
+		close(gate)
+		return
+	}
+	// the first Drop is now inside the underlying Drop; start the others and let them run as far as they get
+	for k := 1; k < nDrops; k++ {
+		go func() { s2.Drop(); done <- struct{}{} }()
+	}
+	finished := 1
+	waiting := true
+	for finished < nDrops && waiting {
+		select {
+		case <-done:
+			finished++
+		case <-entered: // a later Drop reached the underlying store as well; counted below
+		case <-time.After(3 * time.Second):
+			waiting = false // they may legitimately wait for the first Drop to finish
+		}
+	}
+	close(gate)
+	for ; finished <= nDrops; finished++ {
+		select {
+		case <-done:
+		case <-time.After(20 * time.Second):
+			c.Inconclusive(1)
+			return
+		}
+	}
+	c.Eval(1)
+	mu.Lock()
+	n := drops
+	mu.Unlock()
+	if n != 1 {
+		c.Violation("underlying-drop-count-wrong", map[string]interface{}{"case": i, "wrapper": which, "why": fmt.Sprintf("%d overlapping Drop calls on one open store: the underlying Drop ran %d times, want 1", nDrops, n), "ops": []string{"open a", "Drop (blocked inside the underlying Drop)", "Drop again meanwhile"}})
+		return
+	}
+	c.Count("overlapping_drop_scenarios", 1)
+	c.Nontrivial(ev.Hash("overlap", which, nDrops, i%4 >= 2))
 }
